@@ -41,7 +41,6 @@ const (
 	findF2   = "C11-F2-equal-content-shares-node"
 	findC10W = "C10-forged-child-weights"
 	findC10K = "C10-node-kind-confusion"
-	findGcD  = "C11-gc-with-uncommitted-changes"
 )
 
 type wcheckpoint struct {
@@ -109,9 +108,6 @@ func (x *wrun) fail(i int, f string, a ...interface{}) {
 // failIn records an oracle failure; cover is the finding whose matcher accepts it ("" = none).
 func (x *wrun) failIn(cover string, i int, f string, a ...interface{}) {
 	msg := fmt.Sprintf("op %d (%s): ", i, clip(x.ops[i], 120)) + fmt.Sprintf(f, a...)
-	if cover == findGcD && x.f2seen {
-		cover = findF2 // both conditions hold: attribute to the older finding
-	}
 	if cover != "" {
 		msg = "[" + cover + "] " + msg
 		if x.res.Finding == "" {
@@ -301,10 +297,7 @@ func (x *wrun) step(i int, f []string) string {
 		}
 		x.tags["gc"] = true
 		if x.dirty {
-			x.tags["gc-while-dirty"] = true
-			if x.cover == "" {
-				x.cover = findGcD // a GC pass while changes are uncommitted
-			}
+			x.tags["gc-while-dirty"] = true // (the defect fixed by a54b110: such a pass could delete nodes of the committed root)
 		}
 
 		for _, m := range checkReopen("after the GC pass", x.st, x.croot, x.cweight, x.committed) {
